@@ -1015,6 +1015,35 @@ parse_null(spif_charptr_t buff, void *state)
     }
 }
 
+#ifdef LIBAST_VERIF
+/* Read-only snapshot of the parser's private tables for external monitors.
+   Compiled only when LIBAST_VERIF is defined; never modifies any state. */
+struct spifconf_verif_state {
+    unsigned int ctx_idx, ctx_cnt, ctx_state_idx, ctx_state_cnt;
+    unsigned int fstate_idx, fstate_cnt, builtin_idx, builtin_cnt;
+    const void *context, *ctx_state, *builtins, *fstate, *vars;
+};
+void spifconf_verif_peek(struct spifconf_verif_state *st);
+
+void
+spifconf_verif_peek(struct spifconf_verif_state *st)
+{
+    st->ctx_idx = ctx_idx;
+    st->ctx_cnt = ctx_cnt;
+    st->ctx_state_idx = ctx_state_idx;
+    st->ctx_state_cnt = ctx_state_cnt;
+    st->fstate_idx = fstate_idx;
+    st->fstate_cnt = fstate_cnt;
+    st->builtin_idx = builtin_idx;
+    st->builtin_cnt = builtin_cnt;
+    st->context = context;
+    st->ctx_state = ctx_state;
+    st->builtins = builtins;
+    st->fstate = fstate;
+    st->vars = spifconf_vars;
+}
+#endif
+
 /**
  * @defgroup DOXGRP_CONF Configuration File Parser
  *
